@@ -59,7 +59,9 @@ impl CsrSegment {
         dst: InternalNodeId,
         rel: Option<RelTypeId>,
     ) -> Box<dyn Iterator<Item = EdgeKey> + '_> {
-        if dst < self.min_dst || dst > self.max_dst {
+        // A segment without edges has no reverse index (`in_offsets` is empty while
+        // `min_dst == max_dst == 0`), so there is nothing to look up for any `dst`.
+        if self.in_edges.is_empty() || dst < self.min_dst || dst > self.max_dst {
             return Box::new(std::iter::empty());
         }
 
